@@ -164,7 +164,7 @@ func (c *Ctx) decodeSites() []decodeSite {
 
 func decoderRule(c *Ctx, rule string) {
 	sites := c.decodeSites()
-	c.R.Floor(rule, len(sites), 3)
+	c.R.Floor(rule, len(sites), 1)
 	for i, s := range sites {
 		ob := c.Ob(rule, s.fn+"/string-decoder#"+itoa(i+1), s.call.Pos())
 		cls, why := c.stringDecoderClass(s.cal)
